@@ -420,7 +420,9 @@ def check_seeded(case, rec):
     if case["fault"] in CONTROLS:
         rec.mon("legal-edit-not-reported")
         rec.count("control", case["fault"])
-        if CONTROLS[case["fault"]] in codes:
+        # (some released schemas carry issues of that code of their own: only one about the edited node counts)
+        edited = str(desc).split(" ")[0]
+        if any(i["code"] == CONTROLS[case["fault"]] and edited in i["message"] for i in with_w):
             rec.violation(f"legal edit ({case['fault']}) reported as {CONTROLS[case['fault']]}", case)
         return True
     rec.mon("seeded-fault-has-code")
